@@ -203,8 +203,11 @@ def run(ctx):
                 # the title carries the raw payload (CR/LF included, markup characters as entities): the title parser
                 # decodes the entities, so the payload reaches the entry name
                 tv = inert_twin(pl) if twin else pl
-                tree.write(f"{d}/page.html", ("<html><head><title>%s</title></head></html>" % html_mod.escape(tv, quote=False))
-                           .encode("utf-8", "surrogateescape"))
+                tsrc = html_mod.escape(tv, quote=False)
+                if i % 2 == 1:
+                    # line breaks and tabs written as character references: the parser decodes them after any source-level clean-up
+                    tsrc = tsrc.replace("\r", rng.choice(["&#13;", "&#xD;"])).replace("\n", rng.choice(["&#10;", "&#xA;", "&NewLine;", "&#10"])).replace("\t", "&#9;")
+                tree.write(f"{d}/page.html", ("<html><head><title>%s</title></head></html>" % tsrc).encode("utf-8", "surrogateescape"))
                 tree.write(f"{d}/box.mbox", (b"From a@b Sat Jan  5 09:43:01 2002\nSubject: " +
                                              (inert_twin(nm) if twin else nm).encode("utf-8", "surrogateescape") + b"\n\nbody\n\n"))
             # the UMN handler shows extension-stripped file names; the plain directory handler shows HTML titles,
